@@ -103,6 +103,42 @@ def r1_exit_codes(chk):
     # every conditional assignment is one of the two tests; none resets to EX_OK
     bad = [s for s in stmts if s not in init and norm(s.value) == 'EX_OK']
     chk.ob('C20.R1', 'exit-code/never-reset', not bad, where(mod, c), '')
+    # an error that is reported is also an exit: in both scripts every except-handler that writes an ERROR line, and
+    # every block that does, ends the run with sys.exit(<non-zero constant>) as its last statement
+    mcfg = {}
+    for rel in (MIBDUMP, MIBCOPY):
+        m2 = model.mod(rel)
+        exs = consts(model, rel)
+        nerr = 0
+        for st in ast.walk(m2.tree):
+            if not (isinstance(st, ast.Expr) and isinstance(st.value, ast.Call) and
+                    dotted_name(st.value.func) == 'sys.stderr.write' and st.value.args):
+                continue
+            first = [n.value for n in ast.walk(st.value.args[0]) if isinstance(n, ast.Constant) and
+                     isinstance(n.value, str)]
+            if not first or not first[0].startswith('ERROR'):
+                continue
+            in_func = any(isinstance(p_, ast.FunctionDef) for p_ in parents(st))
+            if in_func:
+                # inside a helper of mibcopy an error line may be followed by `continue`/`return` (per-file errors
+                # under --ignore-errors); those are judged by C20.R4
+                continue
+            cfgm = mcfg.setdefault(rel, CFG(m2.tree))
+            exits_nz = set(n_ for n_ in cfgm.nodes if n_.kind == 'stmt' and isinstance(n_.ast, ast.Expr) and
+                           isinstance(n_.ast.value, ast.Call) and dotted_name(n_.ast.value.func) == 'sys.exit' and
+                           n_.ast.value.args and isinstance(n_.ast.value.args[0], ast.Name) and
+                           exs.get(n_.ast.value.args[0].id, 0) != 0)
+            wn = cfgm.node_of(st)
+            seen_ = cfgm.reach([wn], avoid=exits_nz, skip_labels=('exc',))
+            ok = cfgm.exit not in seen_ and not any(
+                n_.kind == 'stmt' and isinstance(n_.ast, ast.Expr) and isinstance(n_.ast.value, ast.Call) and
+                dotted_name(n_.ast.value.func) == 'sys.exit' for n_ in seen_)
+            nerr += 1
+            chk.ob('C20.R1', '%s/error-line-exits#%d' % (rel.split('/')[-1], nerr), ok, where(m2, st),
+                   'an ERROR message is written but some path from it ends the run without sys.exit(<non-zero code>): the run goes '
+                   'on and may exit 0')
+        chk.ob('C20.R1', '%s/error-sites' % rel.split('/')[-1], nerr >= (4 if rel == MIBDUMP else 1), rel,
+               '%d reported-error sites' % nerr)
     # mibcopy usage exits
     ex2 = consts(model, MIBCOPY)
     chk.ob('C20.R1', 'mibcopy/EX_USAGE', ex2.get('EX_USAGE') == 64 and ex2.get('EX_OK') == 0, MIBCOPY, '%s' % ex2)
@@ -131,7 +167,12 @@ def r2_report(chk):
             for comp in ast.walk(c):
                 if isinstance(comp, (ast.ListComp, ast.GeneratorExp)) and norm(comp.generators[0].iter) == 'sorted(processed)':
                     for cond in comp.generators[0].ifs:
-                        if isinstance(cond, ast.Compare) and isinstance(cond.comparators[0], ast.Constant):
+                        if isinstance(cond, ast.Compare) and isinstance(cond.comparators[0], ast.Constant) and not (
+                                len(cond.ops) == 1 and isinstance(cond.ops[0], ast.Eq)):
+                            chk.ob('C20.R2', 'report-filter %s' % norm(cond)[:40], False, where(mod, cond),
+                                   'a report line must select the modules whose status equals the word')
+                        if isinstance(cond, ast.Compare) and isinstance(cond.comparators[0], ast.Constant) and \
+                                len(cond.ops) == 1 and isinstance(cond.ops[0], ast.Eq):
                             lines.setdefault(cond.comparators[0].value, []).append(
                                 (norm(cond.left), comp.generators[0].target.id, c))
     for w in SIX:
@@ -160,16 +201,47 @@ def r3_options(chk):
                 declared.append(e.value.rstrip('='))
     handled = set()
     setters = {}
+    effects = {}
     for n in ast.walk(mod.tree):
         if isinstance(n, ast.If):
-            for cmp_ in ast.walk(n.test):
-                if isinstance(cmp_, ast.Compare) and norm(cmp_.left) == 'opt[0]' and isinstance(cmp_.comparators[0], ast.Constant):
+            # the handler test is `opt[0] == '--name'` or an or-chain of such equalities, un-negated
+            alts = n.test.values if isinstance(n.test, ast.BoolOp) and isinstance(n.test.op, ast.Or) else [n.test]
+            for cmp_ in alts:
+                if isinstance(cmp_, ast.Compare) and len(cmp_.ops) == 1 and isinstance(cmp_.ops[0], ast.Eq) and \
+                        norm(cmp_.left) == 'opt[0]' and isinstance(cmp_.comparators[0], ast.Constant):
                     o = cmp_.comparators[0].value
                     if o.startswith('--'):
                         handled.add(o[2:])
                         for s in n.body:
                             if isinstance(s, ast.Assign) and isinstance(s.targets[0], ast.Name):
                                 setters.setdefault(s.targets[0].id, []).append((o[2:], norm(s.value)))
+                        for s in ast.walk(n):
+                            if isinstance(s, ast.Assign) and isinstance(s.targets[0], ast.Name):
+                                effects.setdefault(o[2:], []).append('%s = %s' % (s.targets[0].id, norm(s.value)))
+                            if isinstance(s, ast.Expr) and isinstance(s.value, ast.Call) and not norm(s.value).startswith(
+                                    ('sys.stderr.write', 'sys.exit')):
+                                effects.setdefault(o[2:], []).append(norm(s.value))
+            for cmp_ in ast.walk(n.test):
+                if isinstance(cmp_, ast.Compare) and norm(cmp_.left) == 'opt[0]' and (
+                        len(cmp_.ops) != 1 or not isinstance(cmp_.ops[0], ast.Eq)):
+                    chk.ob('C20.R3', 'option-test %s' % norm(cmp_)[:50], False, where(mod, cmp_),
+                           'an option handler must test equality with the option name')
+            if isinstance(n.test, ast.UnaryOp) and any(norm(c_.left) == 'opt[0]' for c_ in ast.walk(n.test)
+                                                       if isinstance(c_, ast.Compare)):
+                chk.ob('C20.R3', 'option-test %s' % norm(n.test)[:50], False, where(mod, n),
+                       'negated option test: the handler runs for every other option')
+    want_effects = {
+        'quiet': ['verboseFlag = False'], 'debug': ["debug.setLogger(debug.Debug(*opt[1].split(',')))"],
+        'mib-source': ['mibSources.append(opt[1])'], 'mib-searcher': ['mibSearchers.append(opt[1])'],
+        'mib-stub': ['mibStubs.append(opt[1])'], 'mib-borrower': ['mibBorrowers.append((opt[1], genMibTextsFlag))'],
+        'destination-format': ['dstFormat = opt[1]'], 'destination-template': ['dstTemplate = opt[1]'],
+        'destination-directory': ['dstDirectory = opt[1]'], 'cache-directory': ['cacheDirectory = opt[1]'],
+        'no-python-compile': ['pyCompileFlag = False'], 'python-optimization-level': ['pyOptimizationLevel = int(opt[1])'],
+        'disable-fuzzy-source': ['doFuzzyMatchingFlag = False'],
+    }
+    for o, want in sorted(want_effects.items()):
+        chk.ob('C20.R3', 'effect --%s' % o, effects.get(o) == want, MIBDUMP,
+               'option --%s does %s, expected %s' % (o, effects.get(o), want))
     for o in declared:
         chk.ob('C20.R3', 'option --%s handled' % o, o in handled, MIBDUMP, 'declared but not handled')
     want_set = {'dryrunFlag': ('dry-run', 'True'), 'writeMibsFlag': ('no-mib-writes', 'False'),
@@ -416,4 +488,10 @@ def r8_failed_leaves_no_file(chk):
     r9_failure_after_rename_leaves_no_file(chk, rule='C20.R8')
 
 
-RULES = [r1_exit_codes, r2_report, r3_options, r4_mibcopy, r5_statuses_backed_by_writes, r6_format_wiring, r7_argument_agreement, r8_failed_leaves_no_file]
+def r9_wellformedness(chk):
+    rels = sorted(r for r in chk.model.modules if r.startswith(('scripts/',)))
+    common.wellformedness(chk, 'C20.R9', rels, floor=4)
+
+
+
+RULES = [r1_exit_codes, r2_report, r3_options, r4_mibcopy, r5_statuses_backed_by_writes, r6_format_wiring, r7_argument_agreement, r8_failed_leaves_no_file, r9_wellformedness]
